@@ -65,6 +65,10 @@ CHECKS = {
             "Seeded (prior, target, L0, L1) scenarios: the prior tree is materialised by a real checkout with link type L0, the user adds / removes / atomically replaces nested files, then a forced checkout of the target with configured link type L1, the same call again, then relink=True; both store classes, with/without state, duplicate contents and empty files, single-file targets. Oracle: workspace == target bytes; the second call returns None and the seam records no workspace mutation; after relink every file is of type L1 judged by lstat/readlink/inode against the cache object; the cache's {oid: bytes} is identical before and after; the saved link record equals (inode, mtime token) recomputed independently from the workspace.",
             "User edits of link-type files are atomic replacements. Zero-length files are exempt from the hardlink-inode test (LocalFileSystem.link deliberately creates a fresh empty file).",
             "deterministic simulation: seeded workspace histories x link-type matrix vs reference model, seam log as mutation witness", "DESIGN.md §5 C10"),
+    "C07": ("exploration",
+            "Seeded histories under the simulated clock: objects (files and a directory object) enter a LocalHashFileDB or generic store raw (hash-state cold) or through the real add() (state warm), are tampered at a later simulated time (truncate, append, same-length rewrite, rewrite, replace-by-rename optionally with the old mtime restored) always leaving a mode other than exactly 0444, intact objects get chmod-ed away from 0444, the clock advances, and check / hashfile.check(tree) / oids_exist / exists / checkout of a referencing tree / add(verify=True) from a corrupt source are issued in random order and repetition. A byte-level model decides per query: tampered => rejected and removed, never reported existing, never materialised by checkout, never retained by a verifying add; intact => never rejected, deleted or changed, protected after a successful check on the local class.",
+            "Tampering that is invisible to (inode, mtime, size) - an in-place same-length rewrite at an unchanged mtime - is not generated (C13 counts and excludes it).",
+            "deterministic simulation: seeded tamper/query histories under a simulated clock vs byte-level model", "DESIGN.md §5 C07"),
 }
 
 NA_FIXED = {
